@@ -52,7 +52,8 @@ def run(tier, seed):
                 if tier == 'quick':
                     # a second member in the root class only where it can matter for a shared class object: a class
                     # variable and a self-assignment of one name in a root class that lives in lib.py
-                    pre += ' and (extra == 10 or (extra == 4 and m0 == 2))' if form != 0 else ' and extra == 10'
+                    pre += ' and (extra == 10 or (extra == 4 and m0 == 2))' if form != 0 else \
+                        (' and (extra == 10 or extra == 11)' if hh <= 1 else ' and extra == 10')     # 11: a bare self.aa: int annotation
                     for i in range(n):
                         pre += ' and ' + QUICK % ((i,) * 7)
                     if n == 4:
@@ -62,7 +63,7 @@ def run(tier, seed):
                 else:
                     for m0 in range(11):
                         new = 'check_h%d_v%d_f%d_m%d' % (hh, via, form, m0)
-                        qs.append(Query(new, src + '\n\n' + copy_fn(src, 'check', new, pre + ' and m0 == %d and (extra == 10 or extra == 3 or extra == 4)' % m0),
+                        qs.append(Query(new, src + '\n\n' + copy_fn(src, 'check', new, pre + ' and m0 == %d and (extra == 10 or extra == 3 or extra == 4 or extra == 11 or extra == 12)' % m0),
                                         new, 'main', 3000, per_path=60, meta={}, label='E'))
     qs.append(Query('check__twin', src + '\n\n' + copy_fn(src, 'check', 'check__twin',
                                                         'h == 1 and via == 0 and form == 0 and m0 == 0 and m1 == 0 and extra == 10 and attr == 0', twin=True),
